@@ -7,7 +7,7 @@ CONSTANT VarSet = {1, 2}
 CONSTANT BG = 1
 CONSTANT TNs = {8}
 CONSTANT TD = 8
-CONSTANT TailSet = {"right", "both"}
+CONSTANT TailSet = {"right"}
 CONSTANT Paired = FALSE
 CONSTANT K = 1
 CONSTANT KeepDraws = TRUE
